@@ -1079,6 +1079,73 @@ impl Gen {
     }
 }
 
+impl Gen {
+    /// Unary `!` applied to short-circuit `&&` / `||` (also nested) over one representative of
+    /// every bool-valued operator, in value position, in a `let`, as an operand and in conditions.
+    pub fn negated_short_circuit_bodies(&self) -> Vec<(Ty, Vec<Stmt>)> {
+        let reps = self.reps1().remove(&Ty::Bool).unwrap_or_default();
+        // operands whose code ends in a negation, plus plain ones, for the three-operand nestings
+        let few: Vec<Expr> = vec![
+            Expr::Not(bx(Expr::Var("c".into()))),
+            Expr::Bin(Bin::Ne, bx(Expr::Var("x".into())), bx(Expr::Var("y".into()))),
+            Expr::Bin(Bin::Ge, bx(Expr::Var("x".into())), bx(Expr::Var("y".into()))),
+            Expr::Bin(Bin::Le, bx(Expr::Var("x".into())), bx(Expr::Int(0))),
+            Expr::Is(bx(Expr::Var("oi".into())), false),
+            Expr::Var("b".into()),
+        ];
+        let not = |e: Expr| Expr::Not(bx(e));
+        let bin = |op: Bin, a: &Expr, b: &Expr| Expr::Bin(op, bx(a.clone()), bx(b.clone()));
+        // (condition, all four positions?) — the three-operand nestings only in value and if position
+        let mut conds: Vec<Expr> = Vec::new();
+        for op in [Bin::And, Bin::Or] {
+            for a in &reps {
+                for b in &reps {
+                    conds.push(not(bin(op, a, b)));
+                }
+            }
+        }
+        let n_pairs = conds.len();
+        for op1 in [Bin::And, Bin::Or] {
+            for op2 in [Bin::And, Bin::Or] {
+                for a in &few {
+                    for b in &few {
+                        for c in &few {
+                            conds.push(not(bin(op1, a, &bin(op2, b, c))));
+                            conds.push(not(bin(op1, &bin(op2, a, b), c)));
+                            conds.push(bin(op1, a, &not(bin(op2, b, c))));
+                            conds.push(not(bin(op1, &not(bin(op2, a, b)), c)));
+                            conds.push(not(not(bin(op1, a, &not(b.clone())))));
+                        }
+                    }
+                }
+            }
+        }
+        let x = || Expr::Var("x".into());
+        let mut out = Vec::new();
+        for (k, c) in conds.into_iter().enumerate() {
+            out.push((Ty::Bool, vec![Stmt::Return(c.clone())]));
+            if k >= n_pairs {
+                out.push((Ty::Int, vec![Stmt::If(vec![(c.clone(), vec![Stmt::Return(x())])], Some(vec![Stmt::Return(Expr::Int(1))]))]));
+                continue;
+            }
+            out.push((
+                Ty::Bool,
+                vec![Stmt::Let("w0".into(), c.clone()), Stmt::Let("w1".into(), x()), Stmt::Return(Expr::Bin(Bin::Eq, bx(Expr::Var("w0".into())), bx(Expr::Var("b".into()))))],
+            ));
+            out.push((Ty::Int, vec![Stmt::If(vec![(c.clone(), vec![Stmt::Return(x())])], Some(vec![Stmt::Return(Expr::Int(1))]))]));
+            out.push((
+                Ty::Int,
+                vec![Stmt::Return(Expr::Builtin(
+                    Builtin::SatAdd,
+                    bx(Expr::Var("y".into())),
+                    bx(Expr::If(bx(Expr::Call("h_neg".into(), vec![c.clone()])), bx(Expr::Int(1)), bx(Expr::Int(0)))),
+                ))],
+            ));
+        }
+        out
+    }
+}
+
 /// Wrap an expression as `return e`.
 pub fn ret_body(e: Expr) -> Vec<Stmt> {
     vec![Stmt::Return(e)]
